@@ -405,8 +405,44 @@ def r6_accessors(c, facts):
     c10.accessor_complete(c, facts, R, 'oal_syntax::parser::Program::declarations', 'declaration')
 
 
+def r9_fresh_scope(c, facts, rule='C08.R9'):
+    """Env::open pushes a newly created, empty scope; Env::close drops the popped one; nothing else touches the stack"""
+    R = c.rule(rule, 'FRESH-SCOPE: a resolver scope starts empty (Env::open pushes a new map) and ends for good (Env::close drops it)')
+    op = c.anchor(R, 'oal_compiler::env::Env::open')
+    cl = c.anchor(R, 'oal_compiler::env::Env::close')
+    idx = MF.defs_index(op)
+    pushes = P.call_blocks(op, 'Vec::push')
+    if len(pushes) != 1:
+        c.bad(R, 'open:push-sites=%d' % len(pushes), 'Env::open no longer pushes exactly one scope')
+    else:
+        sl = MF.slice_back(op, pushes[0][1]['args'][1]['l'], idx) if 'l' in pushes[0][1]['args'][1] else {'calls': [], 'args': set()}
+        names = sorted({P.strip(n).split('::')[-1] for n, _, _ in sl['calls']})
+        fresh = set(names) <= {'new', 'default', 'with_capacity', 'with_hasher', 'with_capacity_and_hasher'} and names and not sl['args']
+        if fresh:
+            c.ok(R, {'Env::open': 'pushes %s()' % names[0]})
+        else:
+            c.bad(R, 'open:scope-not-fresh', 'Env::open pushes a scope obtained from %s (arguments %s) instead of a newly created empty map: bindings of an earlier scope are visible in a later one' % (names, sorted(sl['args'])))
+    pops = P.call_blocks(cl, 'Vec::pop')
+    others = [P.strip(callee_of(t)['def']).split('::')[-1] for b, t in cl.calls() if callee_of(t) and P.strip(callee_of(t)['def']).split('::')[-1] not in ('pop', 'drop', 'drop_in_place')]
+    if len(pops) == 1 and not others:
+        c.ok(R, {'Env::close': 'pops and drops the scope'})
+    else:
+        c.bad(R, 'close:scope-kept:%s' % ','.join(sorted(set(others))), 'Env::close does something with the popped scope (%s) instead of dropping it' % sorted(set(others)))
+    # who else mutates the stack
+    for fn in sorted(facts.fns.values(), key=lambda f: f.qname):
+        if not fn.mir or not fn.qname.startswith('oal_compiler::env::') or fn.qname.split('::')[-1] in ('open', 'close', 'new', 'default'):
+            continue
+        muts = [P.strip(callee_of(t)['def']).split('::')[-1] for b, t in fn.calls() if callee_of(t) and 'Vec::<' in callee_of(t)['def'] and P.strip(callee_of(t)['def']).split('::')[-1] in ('push', 'pop', 'insert', 'remove', 'clear', 'truncate', 'drain', 'swap', 'extend', 'append')]
+        if muts:
+            c.bad(R, 'stack-mutated-in:%s' % fn.qname, '%s changes the scope stack (%s)' % (fn.qname, muts))
+
+
 def run(c, facts):
     import c10
+    import c09
+    c.run(r9_fresh_scope, facts)
+    R8 = c.rule('C08.R8', 'NAMING: a qualified identifier evaluates to its own module\'s value: implicit names are injective over (module, node, instantiation) (shared with C09.R2)')
+    c.shared(R8, c09.r2_scoped_id, 'C09.R2', facts)
     R7 = c.rule('C08.R7', 'JOIN-AGREE: a qualified identifier binds into the module that was loaded for its import (shared with C10.R5)')
     c.shared(R7, c10.r5_join_agree, 'C10.R5', facts)
     c.run(r6_accessors, facts)
